@@ -57,7 +57,7 @@ def run(sid, div):
         for c in claimed():
             q = int(sh("cd %s && /venv/bin/python -c \"import importlib;print(importlib.import_module('props.%s').QUICK_RUNS)\"" % (
                 VERIF, c.lower())).stdout.strip())
-            env = dict(os.environ, VERIF_SHRINK_S="10", ELIOT_SRC=scratch)
+            env = dict(os.environ, VERIF_SHRINK_S="10", ELIOT_SRC=scratch, VERIF_REPLAY_DIR=scratch + "/replays")
             p = sh("cd %s && /venv/bin/python check.py %s --runs %d" % (VERIF, c, max(200, q // div)), env=env)
             lines = p.stdout.strip().split("\n")
             summary = lines[-1] if lines else ""
@@ -68,7 +68,6 @@ def run(sid, div):
             print(c, "exit", p.returncode, "|", summary[:200])
     finally:
         sh("rm -rf %s" % scratch)
-        sh("rm -f %s/replays/*.json" % VERIF)
     mp = os.path.join(d, "meta.json")
     meta = json.load(open(mp))
     meta["checks"] = out
